@@ -24,7 +24,7 @@ COMPONENTS_REAL = ['controller_nonMPI.__init__/run/restart_block', 'Controller._
 COMPONENTS_STUB = ['none']
 ASSUMPTIONS = ['timing_* values are excluded (their keys must agree)', 'reruns on the same controller are judged for fixed-step configurations only, as the property states',
                'reference runs are isolated by fork(): the child inherits the warm parent that never constructed a controller']
-PROBES = ['rerun_same_controller', 'split_same_controller', 'split_fresh_controller', 'interleaved_other_controller', 'shared_dictionaries', 'run_after_ConvergenceError', 'initial_guess_random', 'other_interval_on_used_controller']
+PROBES = ['rerun_same_controller', 'split_same_controller', 'split_fresh_controller', 'interleaved_other_controller', 'shared_dictionaries', 'run_after_ConvergenceError', 'initial_guess_random', 'other_interval_on_used_controller', 'run_aborted_by_user_hook', 'level_status_variable_registered']
 
 
 def plan(tier):
@@ -48,6 +48,11 @@ def _fixed_cfg(r):
         cfg = sc['config']
         cfg['run']['u0'] = r.choice(['ones', 7, 'exact'])
     cfg['hooks'] = ['LogSolution', 'LogWork']
+    if r.random() < 0.3:
+        # increment-based stopping: loads EstimateEmbeddedError, which registers extra level status variables
+        cfg['level']['e_tol'] = 10 ** r.uniform(-9, -4)
+        cfg['level']['restol'] = -1.0
+        cfg['step']['maxiter'] = max(cfg['step']['maxiter'], 6)
     nb = r.randint(2, 4)
     cfg['run']['t0'] = r.choice([0.0, 0.0, 1.0])
     cfg['run']['Tend'] = cfg['run']['t0'] + nb * cfg['P'] * cfg['level']['dt']
@@ -80,7 +85,9 @@ def generate(seed, tier, index):
                 ops.append(['new', cid])
                 live.add(cid)
             continue
-        if cid != 2 and c < 0.15:
+        if cid != 2 and c < 0.08:
+            ops.append(['run_abort', cid, r.randint(1, 4)])  # a user hook raises in the middle of this run
+        elif cid != 2 and c < 0.2:
             ops.append(['run_interval', cid, r.randint(1, 3)])  # another interval on the same controller
         elif cid == 2 or c < 0.55:
             ops.append(['run', cid])
@@ -121,12 +128,35 @@ def _per_step(stats):
     return out
 
 
+_KILL = {'at': -1, 'count': 0}
+_KILLHOOK = []
+
+
+class UserAbort(Exception):
+    """Raised by the harness hook to model a run that a user's hook aborts with an exception."""
+
+
+def _kill_hook():
+    if not _KILLHOOK:
+        from pySDC.core.hooks import Hooks
+
+        class KillHook(Hooks):
+            def post_step(self, step, level_number):
+                super().post_step(step, level_number)
+                _KILL['count'] += 1
+                if _KILL['count'] == _KILL['at']:
+                    raise UserAbort(f'aborted by a user hook at post_step number {_KILL["at"]}')
+
+        _KILLHOOK.append(KillHook)
+    return _KILLHOOK[0]
+
+
 class _Ctl:
     def __init__(self, cfg, shared=None):
         self.cfg = cfg
         sc = {'config': cfg, 'faults': {}}
         self.ctx = blocksim.Ctx(sc, Result(), EventLog())
-        self.ctrl = blocksim.build(sc, self.ctx, plain=True, shared=shared)
+        self.ctrl = blocksim.build(sc, self.ctx, plain=True, shared=shared, extra_hooks=[_kill_hook()])
 
     def run(self, t0, Tend, u0=None):
         import warnings
@@ -135,6 +165,7 @@ class _Ctl:
         np.seterr(all='ignore')
         if u0 is None:
             u0 = blocksim.initial_value(self.ctrl, self.cfg['run'].get('u0', 'exact'), self.cfg['run']['t0'])
+        _KILL['count'] = 0
         try:
             uend, stats = self.ctrl.run(u0=u0, t0=t0, Tend=Tend)
             return {'exc': None, 'ret': uend, 'ret_digest': bdigest(uend), 'stats': _stats_summary(stats), 'steps': _per_step(stats)}
@@ -238,12 +269,25 @@ def execute(sc):
                 res.probe('interleaved_other_controller')
             if cfg['sweeper']['params'].get('initial_guess') == 'random':
                 res.probe('initial_guess_random')
+            if 'e_tol' in cfg['level']:
+                res.probe('level_status_variable_registered')
             if fixed or ran[cid] == 0:
                 compare(f'op {i} run on controller {cid} (run number {ran[cid] + 1} on it)', got, ref, ci, 'rerun' if ran[cid] else 'run')
             if got['exc'] is not None:
                 res.probe('run_after_ConvergenceError')
             ran[cid] += 1
             log.add('run', cid, got['exc'], got['ret_digest'])
+        elif name == 'run_abort':
+            cid, k = op[1], op[2]
+            ci = getattr(ctl[cid], 'cfg_index', cid)
+            cfg = cfgs[ci]
+            _KILL['at'] = k
+            got = ctl[cid].run(cfg['run']['t0'], cfg['run']['Tend'])
+            _KILL['at'] = -1
+            if got['exc'] == 'UserAbort':
+                res.probe('run_aborted_by_user_hook')
+                ran[cid] += 1
+            log.add('run_abort', cid, got['exc'])
         elif name == 'run_interval':
             cid, k = op[1], op[2]
             ci = getattr(ctl[cid], 'cfg_index', cid)
@@ -293,7 +337,7 @@ def execute(sc):
             if merged != ref['steps']:
                 V('split_records_differ', 'split_run', f'op {i}: concatenated per-step records of the split run differ from the uninterrupted run', fresh=fresh, **ident)
             log.add('split', cid, fresh, j, b['ret_digest'])
-    nctl = len({o[1] for o in sc['ops'] if o[0] in ('run', 'split', 'run_interval')})
+    nctl = len({o[1] for o in sc['ops'] if o[0] in ('run', 'split', 'run_interval', 'run_abort')})
     res['ticks'] = len(sc['ops'])
     res['nontrivial'] = (len(sc['ops']) >= 3 and nctl >= 2) or any(o[0] == 'split' for o in sc['ops']) or bool(res['probes'].get('rerun_same_controller'))
     return res.finish(log)
